@@ -277,6 +277,10 @@ def eval_mod_entry(st, m, env):
     m = m.strip()
     if m == 'fresh':
         return [('fresh', None, None)]
+    if m == 'new':
+        # (loop frames) the objects allocated from now on, i.e. by the iterations of the loop: unlike 'fresh' this
+        # leaves the objects the function allocated BEFORE the loop untouched
+        return [('new', None, st.alloc)]
     if m.endswith('.*'):
         v = E.eval_spec(st, m[:-2], env)
         return [('allfields', v.t.name, v.z)]
@@ -312,6 +316,8 @@ def havoc(st, targets):
             havoc_contents(st, k, r)
         elif kind == 'fresh':
             st.havoc_fresh_region()
+        elif kind == 'new':
+            st.havoc_fresh_region(base=r)
         elif kind == 'anyfield':
             cls, fname = k.split('.', 1)
             _, ty = R.find_field(cls, fname)
@@ -1228,6 +1234,13 @@ def bi_dict_has(st, args, kw):
     return E.mk_bool(z3.Select(has, st.coerce(k, d.t.args[0]).z))
 
 
+def bi_dict_wf(st, args, kw):
+    """dict_wf(d): the representation invariant of a dict (key sequence without repetition, membership map and
+    index function agree) -- needed as a loop invariant when the loop's frame covers the dict (e.g. 'fresh')"""
+    d = args[0]
+    return E.mk_bool(z3.And(d.z != 0, st.dict_wf(d.z, d.t.args[0], d.t.args[1])))
+
+
 def bi_dict_get(st, args, kw):
     d, k = args
     keys, mp, has = st.dict_parts(d.z, *d.t.args)
@@ -1260,7 +1273,7 @@ def bi_dict(st, args, kw):
 
 _BUILTINS = {
     'mkseq': bi_mkseq, 'subset': bi_subset, 'str_suffix': bi_str_suffix, 'py_decode': bi_py_decode, 'alloc_ordered': bi_alloc_ordered, 'py_join_seq': bi_py_join_seq, 'subseq': bi_subseq, 'py_int_ok': bi_py_int_ok, 'py_int_val': bi_py_int_val, 'substr': bi_substr, 'str_index': bi_str_index, 'py_lower': bi_py_lower, 'substr_after_last': bi_substr_after_last, 'pure_IO_encrypted_of': bi_pure_IO_encrypted_of, 'str_prefix': bi_str_prefix, 'nraised': bi_nraised, 'allocated': bi_allocated, 'preexisting': bi_preexisting, 'ncalls': bi_ncalls, 'call_arg': bi_call_arg,
-    'call_result': bi_call_result, 'trig': bi_trig, 'same': bi_same, 'is_list': bi_is_list, 'store': bi_store, 'dict_has': bi_dict_has,
+    'call_result': bi_call_result, 'trig': bi_trig, 'same': bi_same, 'is_list': bi_is_list, 'store': bi_store, 'dict_has': bi_dict_has, 'dict_wf': bi_dict_wf,
     'dict_get': bi_dict_get, 'dict_keys': bi_dict_keys, 'dict': bi_dict, 'dict_index': bi_dict_index,
     'len': bi_len, 'set': bi_set, 'list': bi_list, 'tuple': bi_tuple, 'min': bi_min, 'max': bi_max,
     'seq': bi_seq, 'setv': bi_setv, 'set_of': bi_set_of, 'sorted_by': bi_sorted_by,
